@@ -216,14 +216,22 @@ def run_case(case):
             one = {"k": "nest", "kind": case["kind"], "mpd": case["mpd"], "ns": [n]}
             before = len(res["fails"])
             run_modes(lnt, text, ["lint", "fix"], one, res)
+            for f in res["fails"][before:]:
+                # tells the recorded call site (limit switched off, real recursion) from any other RecursionError
+                f["features"] = dict(f["features"], depth_limit_disabled=(case["mpd"] == 0))
     elif k == "nodes":
         mpn = case["mpn"]
         limit = mpn if mpn else 25
         for delta in (-1, 0, 1):
-            for shape in ("cols", "stmts"):
+            for shape in ("cols", "stmts", "comments", "blank", "ws"):
                 # number of lexed tokens is what the limit counts; build around it
                 ncols = max(1, (limit + delta) // 3)
-                text = ("SELECT " + ", ".join(["a"] * ncols) + " FROM t\n") if shape == "cols" else ("SELECT 1;" * ncols + "\n")
+                if shape in ("cols", "stmts"):
+                    text = ("SELECT " + ", ".join(["a"] * ncols) + " FROM t\n") if shape == "cols" else ("SELECT 1;" * ncols + "\n")
+                else:
+                    # no code token at all (comment-only / blank / whitespace-only files), around and over the limit
+                    unit = {"comments": "-- c\n", "blank": "\n", "ws": "  \n"}[shape]
+                    text = unit * max(1, (limit + 2 * delta + 2) // (2 if shape != "blank" else 1))
                 ov = {} if mpn is None else {"max_parse_nodes": mpn}
                 lnt = sq.linter("ansi", "raw", **ov)
                 run_modes(lnt, text, ["parse", "lint", "fix"], {"k": "nodes", "mpn": mpn, "delta": delta, "shape": shape}, res)
@@ -231,8 +239,13 @@ def run_case(case):
                     from sqlfluff.core import Lexer
 
                     ntok = len(Lexer(config=lnt.config).lex(text)[0])
-                    lf = lnt.lint_string(text)
+                    try:
+                        lf = lnt.lint_string(text)
+                    except Exception:
+                        continue  # already reported as `exception` by run_modes above
                     limited = any("Maximum parse node count exceeded" in v.desc() for v in lf.violations)
-                    if (ntok > mpn) != limited:
+                    # one direction only: more tokens than the limit must be reported; fewer tokens can still exceed it,
+                    # because the parser counts the nodes it builds, not the tokens (an 'iff' here was a false alarm)
+                    if ntok > mpn and not limited:
                         res["fails"].append({"clause": "node_limit", "features": {}, "detail": {"tokens": ntok, "limit": mpn, "reported": limited}, "case": {"k": "nodes", "mpn": mpn}})
     return res
